@@ -1,0 +1,35 @@
+//go:build verif
+
+package m
+
+import "time"
+
+// VerifEntries returns a copy of the routing table entries in table order.
+// Verification hook: only compiled with the "verif" build tag.
+func (rt *RoutingTable) VerifEntries() []RoutingTableEntry {
+	rt.lock.RLock()
+	defer rt.lock.RUnlock()
+
+	entries := make([]RoutingTableEntry, 0, len(rt.entries))
+	for _, rte := range rt.entries {
+		entries = append(entries, *rte)
+	}
+	return entries
+}
+
+// VerifAgeEntries simulates the passage of time by moving the expiry of every
+// entry back by the given duration.
+// Verification hook: only compiled with the "verif" build tag.
+func (rt *RoutingTable) VerifAgeEntries(d time.Duration) {
+	rt.lock.Lock()
+	defer rt.lock.Unlock()
+
+	for i, rte := range rt.entries {
+		if rte.Expires.IsZero() {
+			continue
+		}
+		aged := *rte
+		aged.Expires = rte.Expires.Add(-d)
+		rt.entries[i] = &aged
+	}
+}
